@@ -75,6 +75,7 @@ type VC struct {
 	typeTags  map[string]int
 	boxed     map[*Term]Val
 	boxedType map[*Term]types.Type
+	extIfaceTags []*Term
 	pendingSig *types.Signature
 	notes     []string
 	tagFilter string
@@ -87,6 +88,8 @@ type VC struct {
 	topParams []Val
 	topResults []Val
 	concretize int
+	scratch   int // >0: trial execution of a loop body: obligations suppressed, assumptions rolled back afterwards
+	autoInv   []string
 	preSat    *Obligation
 	canary    *Obligation
 }
@@ -341,6 +344,11 @@ func (vc *VC) oblige(st *State, name, kind string, goal *Term, tags []string, sr
 	if vc.dry > 0 || vc.discovery {
 		return
 	}
+	if vc.scratch > 0 {
+		// the real pass asserts this; the trial pass may rely on it
+		vc.assumes = append(vc.assumes, Implies(st.pc, goal))
+		return
+	}
 	full := vc.fnName() + "#" + name
 	vc.oblNames[full]++
 	if n := vc.oblNames[full]; n > 1 {
@@ -374,6 +382,9 @@ func funcDisplayName(fn *ssa.Function) string {
 }
 
 func (vc *VC) noteWrite(st *State, kind PtrKind, key string, base, idx *Term) {
+	if vc.scratch > 0 {
+		return
+	}
 	if vc.dry > 0 {
 		vc.dryWrites = append(vc.dryWrites, writeRec{kind: kind, key: key, base: base, idx: idx})
 		return
@@ -1007,6 +1018,23 @@ func (vc *VC) execLoop(fx *FuncCtx, L *Loop, st *State, fr *Frame, ins []*State)
 	vc.allocBases[newBase] = true
 	cells, keys, freshOnly := vc.loopWrites(fx, L, st, fr)
 	vc.nAlloc = 0
+	if !vc.discovery && vc.scratch == 0 && (len(cells) > 0 || len(keys) > 0) {
+		keepCells, keepKeys := vc.inferUnchanged(fx, L, st, fr, ephi, invs, cells, keys, freshOnly, oldBase, oldN)
+		var c2 []int
+		for _, id := range cells {
+			if !keepCells[id] {
+				c2 = append(c2, id)
+			}
+		}
+		var k2 []string
+		for _, k := range keys {
+			if !keepKeys[k] {
+				k2 = append(k2, k)
+			}
+		}
+		cells, keys = c2, k2
+		vc.nAlloc = 0
+	}
 	h := st.clone()
 	for _, id := range cells {
 		old := h.cells[id]
@@ -1078,12 +1106,218 @@ func tagsOf(fc *FuncContract) []string {
 }
 
 func (vc *VC) specError(st *State, name string, c *Clause, err error) {
-	if vc.dry > 0 || vc.discovery {
+	if vc.dry > 0 || vc.discovery || vc.scratch > 0 {
 		return
 	}
 	full := vc.fnName() + "#" + name
 	o := &Obligation{Name: full, Kind: "stale", PC: st.pc, Goal: False(), NAssume: len(vc.assumes), Taint: "contract clause cannot be resolved: " + err.Error(), Src: c.Src, Fn: vc.fnName()}
 	vc.obls = append(vc.obls, o)
+}
+
+// inferUnchanged finds, with the solver, which of the cells and heap keys written by a loop body have, on every
+// path that returns to the loop head, the value they had on loop entry (e.g. ghost typestate and error variables that
+// change only on paths that leave the loop). This is Houdini over the candidate family "x == entry(x)": all
+// candidates are assumed at the head, the body is executed, candidates not re-established at the back edge are
+// dropped, until the set is stable. The survivors form an inductive invariant and are not havocked.
+func (vc *VC) inferUnchanged(fx *FuncCtx, L *Loop, st *State, fr *Frame, ephi map[*ssa.Phi]Val, invs []*Clause, cells []int, keys []string, freshOnly map[string]bool, oldBase *Term, oldN int) (map[int]bool, map[string]bool) {
+	keepCells, keepKeys := map[int]bool{}, map[string]bool{}
+	enabled := fx.fc != nil && fx.fc.Flags["autoinv"]
+	for _, k := range keys {
+		if strings.HasPrefix(k, "ghost:") && vc.prog.ghost(strings.TrimPrefix(k, "ghost:")) != nil {
+			enabled = true
+		}
+	}
+	if !enabled || len(cells)+len(keys) > 60 {
+		return keepCells, keepKeys
+	}
+	// candidates: ghost state, and locals holding interfaces (error variables) or references
+	for _, id := range cells {
+		switch st.cells[id].(type) {
+		case *IfaceV:
+			keepCells[id] = true
+		}
+	}
+	for _, k := range keys {
+		if strings.HasPrefix(k, "ghost:") && vc.prog.ghost(strings.TrimPrefix(k, "ghost:")) != nil {
+			keepKeys[k] = true
+		}
+	}
+	if fx.fc != nil && fx.fc.Flags["autoinv"] {
+		for _, id := range cells {
+			keepCells[id] = true
+		}
+		for _, k := range keys {
+			keepKeys[k] = true
+		}
+	}
+	for round := 0; round < 4; round++ {
+		vc.scratch++
+		mark := len(vc.assumes)
+		gmark := len(vc.gfacts)
+		savedCell, savedAlloc, savedSeq := vc.nextCell, vc.nAlloc, vc.deferSeq
+		savedCalls := map[string]int{}
+		for k, v := range vc.callSeq {
+			savedCalls[k] = v
+		}
+		savedLocals := map[string]*PtrV{}
+		for k, v := range fx.locals {
+			savedLocals[k] = v
+		}
+		h := st.clone()
+		for _, id := range cells {
+			if keepCells[id] {
+				continue
+			}
+			fv, facts := vc.freshLike(fmt.Sprintf("trial.cell%d", id), h.cells[id])
+			h.cells[id] = fv
+			for _, f := range facts {
+				vc.assume(h, f)
+			}
+		}
+		for _, k := range keys {
+			if keepKeys[k] {
+				continue
+			}
+			ki := vc.reg.m[k]
+			nh := Fresh("trial:"+k, ki.Sort)
+			if freshOnly[k] {
+				r := Bound("r", IntSort)
+				vc.assume(h, Forall([]*Term{r}, Implies(Lt(r, Add(oldBase, IntC(int64(oldN)))), Eq(Select(nh, r), Select(st.heapVar(ki), r)))))
+			}
+			h.heap[k] = nh
+		}
+		hphi := map[*ssa.Phi]Val{}
+		for phi := range ephi {
+			fv, _ := vc.freshVal("phi", phi.Type())
+			hphi[phi] = fv
+		}
+		henv := vc.specEnvFor(fx, h, fr)
+		for _, c := range invs {
+			if g, err := henv.evalBool(c.Expr); err == nil {
+				vc.assume(h, g)
+			}
+		}
+		f := newFrame(fr)
+		_, backs := vc.execRegion(fx, L, h, f, hphi)
+		dropped := false
+		if len(backs) > 0 {
+			b := vc.mergeStates(backs)
+			base := append(append([]*Term{}, vc.gfacts...), strLitAxioms()...)
+			base = append(base, vc.assumes...)
+			base = append(base, b.pc)
+			try := func(eq *Term) bool {
+				if eq.IsConst {
+					return eq.B
+				}
+				sc := Script(append(append([]*Term{}, base...), Not(eq)), nil, "", 0)
+				return quickUnsat(sc, 1)
+			}
+			for _, id := range cells {
+				if !keepCells[id] {
+					continue
+				}
+				ov, nv := h.cells[id], b.cells[id]
+				if nv == nil || sameVal(ov, nv) {
+					continue
+				}
+				eq, ok := valEq(ov, nv)
+				if !ok || !try(eq) {
+					delete(keepCells, id)
+					dropped = true
+				}
+			}
+			for _, k := range keys {
+				if !keepKeys[k] {
+					continue
+				}
+				ov, nv := h.heap[k], b.heap[k]
+				if nv == nil || ov == nil || ov == nv {
+					continue
+				}
+				if !try(Eq(ov, nv)) {
+					delete(keepKeys, k)
+					dropped = true
+				}
+			}
+		}
+		vc.scratch--
+		vc.assumes = vc.assumes[:mark]
+		vc.gfacts = vc.gfacts[:gmark]
+		vc.nextCell, vc.nAlloc, vc.deferSeq = savedCell, savedAlloc, savedSeq
+		vc.callSeq = savedCalls
+		for k := range fx.locals {
+			delete(fx.locals, k)
+		}
+		for k, v := range savedLocals {
+			fx.locals[k] = v
+		}
+		if !dropped {
+			break
+		}
+		if round == 3 {
+			// no fixpoint within the budget: keep nothing
+			return map[int]bool{}, map[string]bool{}
+		}
+	}
+	for id := range keepCells {
+		vc.autoInv = append(vc.autoInv, fmt.Sprintf("%s loop %d: local cell %d keeps its entry value at the loop head (inferred, checked by the solver)", funcDisplayName(fx.fn), L.N, id))
+	}
+	for k := range keepKeys {
+		vc.autoInv = append(vc.autoInv, fmt.Sprintf("%s loop %d: %s keeps its entry value at the loop head (inferred, checked by the solver)", funcDisplayName(fx.fn), L.N, k))
+	}
+	return keepCells, keepKeys
+}
+
+// valEq builds the equality of two values of the same shape.
+func valEq(a, b Val) (*Term, bool) {
+	switch x := a.(type) {
+	case *Term:
+		y, ok := b.(*Term)
+		if !ok || x.Sort != y.Sort {
+			return nil, false
+		}
+		return Eq(x, y), true
+	case *SliceV:
+		y, ok := b.(*SliceV)
+		if !ok {
+			return nil, false
+		}
+		return And(Eq(x.Arr, y.Arr), Eq(x.Off, y.Off), Eq(x.Len, y.Len), Eq(x.Cap, y.Cap)), true
+	case *IfaceV:
+		y, ok := b.(*IfaceV)
+		if !ok {
+			return nil, false
+		}
+		return And(Eq(x.Tag, y.Tag), Or(Eq(x.Tag, IntC(0)), Eq(x.Data, y.Data))), true
+	case *StructV:
+		y, ok := b.(*StructV)
+		if !ok || len(x.F) != len(y.F) {
+			return nil, false
+		}
+		var cs []*Term
+		for i := range x.F {
+			e, ok := valEq(x.F[i], y.F[i])
+			if !ok {
+				return nil, false
+			}
+			cs = append(cs, e)
+		}
+		return And(cs...), true
+	case *PtrV:
+		y, ok := b.(*PtrV)
+		if !ok || x.Kind != y.Kind || x.Key != y.Key || x.Cell != y.Cell || (x.Idx == nil) != (y.Idx == nil) {
+			return nil, false
+		}
+		cs := []*Term{}
+		if x.Base != nil && y.Base != nil {
+			cs = append(cs, Eq(x.Base, y.Base))
+		}
+		if x.Idx != nil {
+			cs = append(cs, Eq(x.Idx, y.Idx))
+		}
+		return And(cs...), true
+	}
+	return nil, false
 }
 
 // refComponents lists the reference-valued parts of a value that name backing arrays or objects.
